@@ -123,7 +123,9 @@ impl Out {
             Err(_) => {
                 let site = LAST_PANIC.with(|p| p.borrow().clone());
                 if self.oracle.len() < 8 {
-                    self.oracle.push(("panic".into(), format!("{what} panicked at {site}")));
+                    // a panic inside the third-party /proc parser gets its own class (known finding)
+                    let class = if site.contains("procfs-core") { "panic-procfs-core" } else { "panic" };
+                    self.oracle.push((class.into(), format!("{what} panicked at {site}")));
                 }
                 None
             }
@@ -1546,6 +1548,22 @@ fn kv_text(rng: &mut Rng, sep: u8, eol: u8) -> Vec<u8> {
 /// `/proc/<pid>/maps` text with hostile fields.
 fn maps_text(rng: &mut Rng) -> Vec<u8> {
     let mut out = String::new();
+    if rng.chance(1, 3) {
+        // well-formed lines only (the parser stops at the first malformed one), then ONE line with a
+        // path shape procfs-core's `MMapPath::from` slices, or an smaps attribute with a huge value
+        for i in 0..rng.below(3) {
+            out.push_str(&format!("{:08x}-{:08x} rw-p 00000000 00:00 0 [heap]\n", 0x10000 * (i + 1), 0x10000 * (i + 1) + 0x1000));
+        }
+        let path = *rng.pick(&[
+            "/SYSV00000000 (deleted)", "/SYSV12", "/SYSV", "/SYSV1234567\u{e9}", "/SYSVzzzzzzzz", "[stack:12]", "[stack:", "[stack:7\u{e9}",
+            "[stack:x]", "[anon:\u{e9}]", "[", "[\u{e9}", "/usr/lib/libc.so.6", "[stack:\u{e9}]",
+        ]);
+        out.push_str(&format!("00400000-0040b000 r-xp 00000000 08:01 {} {}\n", rng.below(1 << 20), path));
+        if rng.chance(1, 2) {
+            out.push_str(*rng.pick(&["Rss: 4 kB\n", "Size: 18446744073709551615 kB\n", "Rss: 18014398509481984 kB\n", "VmFlags: rd ex mr\n", "Rss: x kB\n", "Rss:\n", "Pss: 18014398509481983 kB\n"]));
+        }
+        return out.into_bytes();
+    }
     let hex = |rng: &mut Rng| -> String {
         match rng.below(10) {
             0 => "0".into(),
@@ -1566,6 +1584,22 @@ fn maps_text(rng: &mut Rng) -> Vec<u8> {
             2 => out.push_str(&format!("{lo}-{hi} {perms} {} 08:01\n", hex(rng))),
             3 => out.push_str("\n"),
             4 => out.push_str(&format!("{lo}-{hi} {perms} {} 08:01 {} /a b/c (deleted)\r\n", hex(rng), rng.below(99999))),
+            5 => {
+                // the path shapes procfs-core's `MMapPath::from` slices, and smaps attribute lines
+                let path = *rng.pick(&[
+                    "/SYSV00000000 (deleted)", "/SYSV12", "/SYSV", "/SYSV1234567\u{e9}", "/SYSVzzzzzzzz", "[stack:12]", "[stack:", "[stack:7\u{e9}",
+                    "[stack:x]", "[heap]", "[anon:\u{e9}]", "[", "[\u{e9}",
+                ]);
+                if rng.chance(2, 3) {
+                    // a well-formed prefix, so that the parser gets as far as the path column
+                    out.push_str(&format!("{:08x}-{:08x} r-xp 00000000 08:01 {} {}\n", 0x400000 + rng.below(64) * 0x1000, 0x800000 + rng.below(64) * 0x1000, rng.below(1 << 20), path));
+                } else {
+                    out.push_str(&format!("{lo}-{hi} {perms} {} 00:00 {} {}\n", hex(rng), rng.below(1 << 20), path));
+                }
+                if rng.chance(1, 2) {
+                    out.push_str(*rng.pick(&["Rss: 4 kB\n", "Size: 18446744073709551615 kB\n", "Rss: 18014398509481984 kB\n", "VmFlags: rd ex mr\n", "Rss: x kB\n", "Rss:\n"]));
+                }
+            }
             _ => out.push_str(&format!("{lo}-{hi} {perms} {} 00:00 {} {}\n", hex(rng), rng.below(1 << 33), rng.pick(&["", "[stack]", "/lib/x.so", "[vsyscall]", "\"", "   "]))),
         }
     }
@@ -2608,6 +2642,12 @@ impl Engine for Read {
         let Some((mut bytes, cat)) = parse_case(case) else { return case.to_string() };
         if STUCK.load(std::sync::atomic::Ordering::SeqCst) > 0 {
             // re-running a case that leaves a stuck worker behind costs up to 1 GiB each time
+            return case.to_string();
+        }
+        // a broken reader fails on thousands of cases (the case "shape" the runner groups failures by
+        // contains the whole payload, so they are all kept): shrink the first few only
+        static SHRUNK: std::sync::atomic::AtomicUsize = std::sync::atomic::AtomicUsize::new(0);
+        if SHRUNK.fetch_add(1, std::sync::atomic::Ordering::SeqCst) >= 6 {
             return case.to_string();
         }
         let t0 = Instant::now();
